@@ -12,7 +12,7 @@ def add(pid, cat, technique, text, note, ref):
 
 add("C19", "exploration",
     "property-based testing (proptest): generated polynomials/smooth functions vs exact term-wise calculus; exactness, predicted leading error term (two-sided), remainder bounds, linearity",
-    "Generated-input search over polynomials of degree 0..6 (real/complex), points and steps in the stated ranges, with an exact-calculus oracle and stated rounding allowances (>=20x margin measured); exactness on low degrees is decided two-sidedly through the predicted leading error term.",
+    "Generated-input search over polynomials of degree 0..6 (real/complex), points and steps in the stated ranges (a quarter of the steps negative), with an exact-calculus oracle and stated rounding allowances (>=20x margin measured); exactness on low degrees is decided two-sidedly through the predicted leading error term.",
     "Trusts libm sin/exp to a few ulp and the harness's Horner evaluation; exploration only - no proof of absence.",
     "DESIGN.md 4/C19")
 add("C20", "exploration",
@@ -23,7 +23,7 @@ add("C20", "exploration",
 
 add("C11", "exploration",
     "property-based differential testing (proptest) against naive O(n^2) coefficient algebra: all operator forms, scalar/linear/FFT product paths, dft/idft round trip and values at roots of unity; thorough tier adds a coverage-guided libFuzzer target (cargo-fuzz) on the same case structure and oracle",
-    "Generated real and complex polynomial pairs (degree 0..40 quick / 0..128 thorough, structured shapes and power-of-two boundary lengths) are pushed through every owned/borrowed/assigning operator form and compared coefficient-wise with naive harness algebra under a stated rounding allowance ((16+N) eps |a|_1|b|_1 + 1.5 tol for FFT size N; >=10x measured margin); degree, commutativity, pointwise product and transform identities are checked on the same cases.",
+    "Generated real and complex polynomial pairs (degree 0..40 quick / 0..128 thorough, structured shapes and power-of-two boundary lengths, operands just below a loose tolerance, operands with different tolerances) are pushed through every owned/borrowed/assigning operator form and compared coefficient-wise with naive harness algebra under a stated rounding allowance ((16+N) eps |a|_1|b|_1 + 1.5 tol for FFT size N; >=10x measured margin); degree, commutativity, pointwise product and transform identities are checked on the same cases.",
     "Exploration only. Trusts naive harness arithmetic; FFT noise allowance grows linearly with transform size (calibrated, see DESIGN C11).",
     "DESIGN.md 4/C11")
 add("C12", "exploration",
@@ -44,7 +44,7 @@ add("C18", "exploration",
 
 add("C07", "exploration",
     "property-based testing (proptest) with an instrumented objective function: abscissa recorder + evaluation budget, catalogue of functions with analytically known sign-change roots; Ok/Err classification oracle",
-    "Generated (solver, function, bracket, tolerance, ITP parameter) cases, incl. functions strongly non-linear on the scale of the tolerance; the function passed to the solver records every abscissa and enforces a hard evaluation budget, so containment, termination and accuracy (distance to a known sign change, or |f|<tol for Brent) are decided per case; invalid inputs must give Err.",
+    "Generated (solver, function, bracket, tolerance, ITP parameter) cases, incl. functions strongly non-linear on the scale of the tolerance and bisection with n_max exactly the number of halvings its stopping rule needs; the function passed to the solver records every abscissa and enforces a hard evaluation budget, so containment, termination and accuracy (distance to a known sign change, or |f|<tol for Brent) are decided per case; invalid inputs must give Err.",
     "Exploration only. Root sets of the catalogue are analytic; a 4-ulp slack is allowed on 'inside the closed interval' because bracket ends are recomputed in the harness.",
     "DESIGN.md 4/C07")
 add("C08", "exploration",
@@ -65,7 +65,7 @@ add("C09", "exploration",
     "DESIGN.md 4/C09")
 add("C10", "exploration",
     "exhaustive enumeration of every table row and entry (251 Gaussian rules, 192 tanh-sinh pairs): structure, exactness on all monomials of degree <= 2n-1 against exact moments, node/weight comparison with independently computed Gauss rules (Golub-Welsch, closed forms), double-exponential formula; proptest-generated random polynomials in orthonormal bases",
-    "Every row of the five Gaussian tables of the working tree is expanded as the integrators consume it and checked for n distinct interior nodes, positive weights, exactness on every monomial up to degree 2n-1 (1e-9 relative to sum w|p|) and agreement with an independent rule to 1e-10; every tanh-sinh pair against the formula (1e-12). The finite space is covered completely.",
+    "Every row of the five Gaussian tables of the working tree is expanded as the integrators consume it and checked for n distinct interior nodes, positive weights, exactness on every monomial up to degree 2n-1 (1e-9 relative to sum w|p|) and agreement with an independent rule to 1e-10; every tanh-sinh pair against the formula (1e-12); and through the public integrators: an instrumented never-converging integrand records every abscissa (the rule at position n is asked for exactly the n table nodes) and a one-hot integrand reads out the weight applied at every evaluation of every rule from the fourth on (bit-equal to the table). The finite space is covered completely.",
     "Table perturbations below ~1e-10 relative are below the resolution (stated limit). Trusts nalgebra's symmetric eigen-solver for the independent rules.",
     "DESIGN.md 4/C10")
 
@@ -82,7 +82,7 @@ add("C16", "exploration",
 
 add("C17", "exploration",
     "property-based testing (proptest): normal-equation / exact-reproduction / permutation oracles for linear_fit; reference least-squares solution (harness Gauss-Newton) and model-call budget for Levenberg-Marquardt; bug-compatible reference model of the LM loop to key the recorded findings K1 (finite-difference Jacobian) and K3 (no step rejection)",
-    "Generated data sets and models (linear in parameters and exponential/gaussian/logistic, noise-free and noisy) with well-conditioned designs; the fit must terminate within a model-call budget and lie within a tolerance-governed distance of the reference least-squares solution; invalid parameters and mismatched lengths must give Err. curve_fit's finite-difference Jacobian defect is a recorded finding: a failing curve_fit outcome is attributed to it only if it coincides with the harness's transliteration of the loop with Jacobian = sum.",
+    "Generated data sets and models (linear in parameters and exponential/gaussian/logistic, noise-free and noisy; replicated abscissae; abscissae far from the origin; complex data for linear_fit and curve_fit_jac; damping from 1e-10 (linear models) / 1e-4 (non-linear) to 10) with well-conditioned designs; the fit must terminate within a model-call budget and lie within a tolerance-governed distance of the reference least-squares solution; invalid parameters and mismatched lengths must give Err. curve_fit's finite-difference Jacobian defect is a recorded finding: a failing curve_fit outcome is attributed to it only if it coincides with the harness's transliteration of the loop with Jacobian = sum.",
     "Exploration only. On the pinned tree most curve_fit (finite-difference) cases fall under K1, so that variant's accuracy is effectively unverified until the defect is repaired; curve_fit_jac, linear_fit and all validation paths are fully judged; curve_fit_jac failures in which the transliterated loop accepted an uphill step and a safeguarded iteration succeeds are reported as K3.",
     "DESIGN.md 4/C17")
 
